@@ -49,14 +49,20 @@ pub struct C14 {
     /// run as the actor-path part of C07 (capabilities): same executor, requests biased towards
     /// imports, local writes and exports; violations are reported under C07
     pub cap_mode: bool,
+    /// run as the actor-path part of C16 (removal): requests biased towards several handles, drops,
+    /// re-creation and reads; violations are reported under C16
+    pub removal_mode: bool,
 }
 
 impl C14 {
     pub fn new() -> Self {
-        C14 { keys: Keys::new(3, 2), cap_mode: false }
+        C14 { keys: Keys::new(3, 2), cap_mode: false, removal_mode: false }
     }
     pub fn capabilities() -> Self {
-        C14 { keys: Keys::new(3, 2), cap_mode: true }
+        C14 { keys: Keys::new(3, 2), cap_mode: true, removal_mode: false }
+    }
+    pub fn removal() -> Self {
+        C14 { keys: Keys::new(3, 2), cap_mode: false, removal_mode: true }
     }
     fn gen_req(&self, rng: &mut Rng, client: usize) -> Req {
         let n = if rng.chance(2, 3) { 0 } else { rng.below(3) };
@@ -64,6 +70,18 @@ impl C14 {
         // distinct clients write under distinct key prefixes so that local timestamps never tie
         let mut key = vec![0x70 + client as u8];
         key.extend(gen_key(rng));
+        if self.removal_mode {
+            return match rng.below(16) {
+                0..=3 => Req::Open { n, sync: rng.chance(1, 2), sub: false },
+                4..=5 => Req::Close { n },
+                6..=7 => Req::Local { n, a, key, c: rng.below(3), ts: 0 },
+                8..=10 => Req::Drop { n },
+                11..=12 => Req::Import { n, write: true },
+                13 => Req::GetMany { n },
+                14 => Req::State { n },
+                _ => Req::Remote { n, a, key, c: Some(rng.below(3)), ts: *rng.pick(&[5u64, 9, 10]) },
+            };
+        }
         if self.cap_mode {
             return match rng.below(16) {
                 0..=2 => Req::Open { n, sync: rng.chance(1, 2), sub: false },
@@ -123,13 +141,13 @@ fn err_kind(e: &anyhow::Error) -> String {
 impl Property for C14 {
     type Op = Op;
     fn id(&self) -> &'static str {
-        if self.cap_mode { "C07" } else { "C14" }
+        if self.cap_mode { "C07" } else if self.removal_mode { "C16" } else { "C14" }
     }
     fn parallel(&self) -> bool {
         false
     }
     fn case_prefix(&self) -> &'static str {
-        if self.cap_mode { "actor-" } else { "" }
+        if self.cap_mode || self.removal_mode { "actor-" } else { "" }
     }
     fn rule(&self) -> String {
         "1-3 concurrent clients, each a sequence of 2-12 requests (open with/without sync/subscribe, close, set-sync, subscribe, local insert/delete, remote insert, get, get-many, sync-initial-message, get-state, drop, import, export-secret) over 3 documents that start absent, read-only or writable; the recorded queue order is replayed on the Lean model of the actor; get_state after every request is compared with the history specification (usable iff opens - releases > 0); the store returned by shutdown is dumped; non-trivial = at least two clients interleaved or a document went through open -> close -> reuse".into()
@@ -388,6 +406,14 @@ impl Property for C14 {
             };
             if let Some((doc, obs)) = sync_obs {
                 lines.push(Line::oracle(format!("ssync 1 {doc}"), obs));
+            }
+            // specification (C16 / C14): dropping a document is refused exactly while another handle
+            // holds it open (the drop itself releases one handle)
+            if toks.get(2).copied() == Some("drop") {
+                let obs = if out == "ok" { Some("allowed") } else if out == "err:not-closed" { Some("refused") } else { None };
+                if let Some(obs) = obs {
+                    lines.push(Line::oracle(format!("sdrop 1 {}", toks[3]), obs));
+                }
             }
             // specification (C14, "replies reflect all earlier requests"): the subscriber count in a
             // state reply is the number of acknowledged subscriptions since the document became open
